@@ -49,6 +49,8 @@ def knobs_of(shape, idx, tier, rng):
         "perm": 0 if pc == 0 else max(1, min(3, pc - inst - 1)),
         "seed": rng.randrange(1 << 30),
         "ops": 4 if k >= 5 else 1,
+        "inst_copy": idx % 5 == 3,
+        "first_rot": [0, 0, 0, 1, -1][idx % 5] if pc == 0 else 0,
     }
 
 
